@@ -15,12 +15,70 @@ ENTITLED = {
 }
 
 
+def roles(b):
+    """the parameters of the merge / import functions by role, from their types: `&mut RoomNode|AuthorisationNode` is the
+    candidate ("new"), `&RoomNode|&AuthorisationNode` next to a candidate is the stored definition ("old"), alone it is
+    the candidate; `&Room` is the rights table ("room")"""
+    if getattr(b, "_c07_roles", None) is not None:
+        return b._c07_roles
+    r = {}
+    ps = [(n, lty) for l, n, lty, leaf in b.named_locals() if leaf[0] == "param"]
+    has_mut = any(re.search(r"^&mut .*(RoomNode|AuthorisationNode)$", lty) for n, lty in ps)
+    for n, lty in ps:
+        if re.search(r"^&mut .*(RoomNode|AuthorisationNode)$", lty):
+            r[n] = "new"
+        elif re.search(r"^&.*(RoomNode|AuthorisationNode)$", lty):
+            r[n] = "old" if has_mut else "new"
+        elif re.search(r"^&.*room::Room$", lty):
+            r[n] = "room"
+    b._c07_roles = r
+    return r
+
+
+def rp(b, t):
+    """full_path with the root parameter replaced by its role"""
+    p = full_path(b, t)
+    head, _, rest = p.partition(".")
+    role = roles(b).get(head)
+    if role:
+        return role + ("." + rest if rest else "")
+    # a variable bound to the element found in a list of a role parameter: `<role>.<list>.[find]`
+    for l, n, lty, leaf in b.named_locals():
+        if n == head and leaf[0] == "var":
+            frontier = list(b.var_defs(leaf))
+            for _ in range(3):   # `let x = list.find(..); match x { Some(y) => ..` : follow the binding chain
+                nxt = []
+                for d in frontier:
+                    if mir.has_call(d, r"::find$") is None:
+                        for x in mir.subterms(d):
+                            if x[0] == "var" and len(x) > 2:
+                                nxt += b.var_defs(x)
+                frontier += nxt
+            for d in frontier:
+                c = mir.has_call(d, r"::find$")
+                if c is not None and c[2]:
+                    recv = c[2][0]
+                    while True:
+                        u = recv
+                        while u[0] in ("ref", "deref"):
+                            u = u[1]
+                        if u[0] == "call" and u[2] and (mir.ITER_ADAPTOR.search(u[1]) or mir.TRANSPARENT.search(u[1]) or u[1].endswith("deref_mut")):
+                            recv = u[2][0]
+                        else:
+                            break
+                    base = rp(b, recv)
+                    if base.split(".")[0] in ("new", "old", "room"):
+                        base = re.sub(r"\.\[\]$", "", base)
+                        return base + ".[find]" + ("." + rest if rest else "")
+    return p
+
+
 def decisions(P, b):
     out = []
     for bi, t in b.calls_to(rights.DECISIONS):
         a = b.call_args(bi)
-        out.append({"block": bi, "pred": callee_name(t).split("::")[-1], "recv": full_path(b, a[0]),
-                    "user": full_path(b, a[1]), "date": full_path(b, a[2]), "loc": b.loc(bi)})
+        out.append({"block": bi, "pred": callee_name(t).split("::")[-1], "recv": rp(b, a[0]),
+                    "user": rp(b, a[1]), "date": rp(b, a[2]), "loc": b.loc(bi)})
     return out
 
 
@@ -38,7 +96,7 @@ def entitlement(C, P, fn, lists, rule="R2"):
     by_list = {}
     for d in ds:
         l = list_of(d["user"])
-        if l is None and d["user"].startswith("new_auth.node"):
+        if l is None and d["user"].startswith("new.node") and short == "prepare_auth_with_history":
             l = "auth_nodes"
         by_list.setdefault(l, []).append(d)
     for l in lists:
@@ -87,15 +145,15 @@ def run(P, C, tier):
     C.ob("R1", "lists:AuthorisationNode", sorted(auth_fields) == sorted(NODE_LISTS_AUTH + EDGE_LISTS_AUTH), "", "entry lists of AuthorisationNode: %s" % auth_fields, nontrivial=False)
     # ---- R1
     n = 0
-    for b, cand, old, node_lists, edge_lists in ((rh, "room_node", "old_room_node", NODE_LISTS_ROOM, EDGE_LISTS_ROOM), (ah, "new_auth", "old_auth", NODE_LISTS_AUTH, EDGE_LISTS_AUTH)):
+    for b, cand, old, node_lists, edge_lists in ((rh, "new", "old", NODE_LISTS_ROOM, EDGE_LISTS_ROOM), (ah, "new", "old", NODE_LISTS_AUTH, EDGE_LISTS_AUTH)):
         pushes = {}
         for bi, t in b.calls_to(r"Vec::push$"):
             a = b.call_args(bi)
-            pushes[(full_path(b, a[0]), full_path(b, a[1]))] = bi
+            pushes[(rp(b, a[0]), rp(b, a[1]))] = bi
         eqs = {}
         for bi, t in b.calls_to(r"database::node::Node::eq$|Node as std::cmp::PartialEq>::eq$"):
             a = b.call_args(bi)
-            eqs[full_path(b, a[1])] = bi
+            eqs[rp(b, a[1])] = bi
         for l in node_lists + edge_lists:
             key = ("%s.%s" % (cand, l), "%s.%s.[]" % (old, l))
             bi = pushes.get(key)
@@ -132,7 +190,7 @@ def run(P, C, tier):
         for si, st in enumerate(rh.blocks[bi]["s"]):
             if st["lhs"][-1:] == [".node"] and len(st["lhs"]) > 1:
                 t = rh.def_term(bi, si, st["rv"], 0)
-                if full_path(rh, t).endswith("old_room_node.auth_nodes.[].node") or "old_auth.node" in term_str(t):
+                if rp(rh, t) == "old.auth_nodes.[].node":
                     g = rh.guards(bi, expand_vars=True)
                     for s, vals, term in g:
                         atom, truth = mir.cond_atoms(term, vals)
@@ -147,8 +205,8 @@ def run(P, C, tier):
     # new entries only: the decision is under `absent from the old list`
     for b in (rh, ah):
         for d in decisions(P, b):
-            if d["user"].startswith("new_auth.node"):
-                continue
+            if (d["user"].startswith("new.node") and b is ah) or (d["user"].startswith("new.auth_nodes.[find].node") and b is rh):
+                continue   # the decision on the updated group row itself (not a new entry of a list)
             g = b.guards(d["block"], expand_vars=True)
             absent = any(mir.cond_atoms(term, vals)[0][0] == "call" and mir.cond_atoms(term, vals)[0][1].endswith("Option::is_none") and mir.cond_atoms(term, vals)[1] is True for s, vals, term in g)
             C.ob("R2", "%s:only-new:%s:%s" % (mir.short(b.id).split("::")[-1], list_of(d["user"]), d["pred"]), absent, d["loc"], "the entitlement test is applied to entries absent from the stored definition")
